@@ -584,14 +584,27 @@ func splitHdr(b []int) (t int, body []int, ok bool) {
 	return -1, nil, false
 }
 
-// repackOK: the real re-encoding rp reproduces type t and body; its header is read in either
-// form (a re-encoded length octet may itself have the value 1: the length field is an allowed
-// difference).  Same predicate as RepackOK of Trace_Codec.tla.
-func repackOK(rp []int, t int, body []int) bool {
-	if len(rp) >= 2 && rp[1] == t && eqInts(rp[2:], body) {
+// repackOK: the real re-encoding rp reproduces type t and body.  The length field is an allowed
+// difference, but a re-encoding whose first octet is 1 is a 3-octet-length datagram for every
+// receiver: it is read as a 2-octet header only when that 1 is the length value the datagram
+// itself announced (lf; Pack() of the fixed-size packets keeps the received value).
+// Same predicate as RepackOK of Trace_Codec.tla.
+func repackOK(rp []int, t int, body []int, lf int) bool {
+	if len(rp) >= 2 && (rp[0] != 1 || lf == 1) && rp[1] == t && eqInts(rp[2:], body) {
 		return true
 	}
 	return len(rp) >= 4 && rp[0] == 1 && rp[3] == t && eqInts(rp[4:], body)
+}
+
+// lenField is the value of the length field of d in the header form present (-1: none).
+func lenField(d []int) int {
+	if len(d) >= 1 && d[0] != 1 {
+		return d[0]
+	}
+	if len(d) >= 3 && d[0] == 1 {
+		return d[1]<<8 | d[2]
+	}
+	return -1
 }
 
 func eqInts(a, b []int) bool {
@@ -654,13 +667,13 @@ func runDgVec(t *testing.T, out *sink) {
 				} else {
 					add("fields", mm[0], fmt.Sprintf("spec %+v real %+v", *v.Pkt, pkt))
 				}
-			} else if !repackOK(rp, ty, v.CB) {
+			} else if !repackOK(rp, ty, v.CB, lenField(v.D)) {
 				add("repack", "", fmt.Sprintf("real re-encoding %v, expected body %v (%s)", rp, v.CB, note))
 			}
 		case o == oOK && !v.OK:
 			acc++
 			dt, db, dok := splitHdr(v.D)
-			if dok && repackOK(rp, dt, db) {
+			if dok && repackOK(rp, dt, db, lenField(v.D)) {
 				add("accept-extra", v.Why, "")
 			} else if wrongOffset {
 				add("body-offset", "", fmt.Sprintf("real decoded %+v, re-encodes to %v", pkt, rp))
